@@ -358,6 +358,62 @@ def kwargs_objects(run, hvsrpy, hook):
     run.notes["kwargs_objects"] = n
 
 
+def replot_after_change(run, hvsrpy, hook):
+    """A figure shows the object's CURRENT statistics: the same object is plotted, its accept/reject state is changed so that the
+    NUMBER of accepted windows stays what it was (one window rejected, another one taken back), and it is plotted again - the mean
+    and +-1 standard deviation lines of every figure are the object's statistics at that moment.  (the first figure must not be
+    what the second one shows; a figure of another, equal-looking object in between must not matter either)"""
+    plt = hook.plt
+    f = np.geomspace(0.5, 20, 14)
+    rs = np.random.RandomState(5)
+
+    def rows(k):
+        out = []
+        for w in range(5):
+            a = 1.0 + 0.2 * rs.rand(14)
+            a[4 + (w + k) % 3] = 3.0 + w
+            out.append(a)
+        return np.array(out)
+
+    def lines_of(ax):
+        thick = [ln for ln in ax.get_lines() if ln.get_linewidth() == 1.3 and rgba(ln.get_color()) == rgba("black")]
+        return [ln for ln in thick if ln.get_linestyle() == "-"], [ln for ln in thick if ln.get_linestyle() == "--"]
+
+    n = 0
+    for kind in ("traditional", "azimuthal"):
+        for dm in ("lognormal", "normal"):
+            obj = hvsrpy.HvsrTraditional(f, rows(0)) if kind == "traditional" else hvsrpy.HvsrAzimuthal([hvsrpy.HvsrTraditional(f, rows(0)), hvsrpy.HvsrTraditional(f, rows(1))], [0.0, 90.0])
+            inner = [obj] if kind == "traditional" else obj.hvsrs
+            for step, (rej, acc) in enumerate(((4, None), (0, 4), (2, 0), (1, 2))):
+                i = inner[0]
+                if step == 0 and len(inner) > 1:
+                    inner[1].valid_window_boolean_mask[3] = False
+                    inner[1].valid_peak_boolean_mask[3] = False
+                for m in (i.valid_window_boolean_mask, i.valid_peak_boolean_mask):
+                    m[rej] = False
+                    if acc is not None:
+                        m[acc] = True
+                figs = [("plot_single_panel_hvsr_curves", lambda: hvsrpy.plot_single_panel_hvsr_curves(obj, distribution_mc=dm, distribution_fn=dm)[1])]
+                if kind == "azimuthal":
+                    figs.append(("plot_azimuthal_summary", lambda: hvsrpy.plot_azimuthal_summary(obj, distribution_mc=dm, distribution_fn=dm)[1][-1]))
+                for name, fn in figs:
+                    with warnings.catch_warnings():
+                        warnings.simplefilter("ignore")
+                        ax = fn()
+                    ax = ax if hasattr(ax, "get_lines") else np.ravel(ax)[-1]
+                    solid, dashed = lines_of(ax)
+                    want_m = obj.mean_curve(dm)
+                    want_s = sorted([tuple(np.round(obj.nth_std_curve(+1, dm), 12)), tuple(np.round(obj.nth_std_curve(-1, dm), 12))])
+                    got_s = sorted(tuple(np.round(np.asarray(ln.get_ydata(), dtype=float), 12)) for ln in dashed)
+                    if len(solid) != 1 or not np.allclose(solid[0].get_ydata(), want_m, rtol=1e-12) or got_s != want_s:
+                        run.violation(f"plot:replot:{kind}", f"{name} of the same {kind} object after step {step} (window {rej} rejected, {acc} taken back; distribution {dm}): "
+                                      f"the mean / +-1 std lines are not the object's current mean_curve / nth_std_curve", dict(kind="plot-replot", step=step, obj=kind, dm=dm, fig=name))
+                    plt.close("all")
+                n += 1
+                run.case(("replot", kind, dm, step))
+    run.notes["replot_after_change"] = n
+
+
 def main():
     run = Run("C20")
     hvsrpy = import_hvsrpy()
@@ -390,6 +446,7 @@ def main():
         total_calls += hook.calls
     run.notes["plot_calls"] = total_calls
     kwargs_objects(run, hvsrpy, hook)
+    replot_after_change(run, hvsrpy, hook)
     return run.finish(
         rule="states of the exported HvsrObject graphs reached on real traditional / 2-azimuth objects; at every k-th state "
              "the single-panel plot (all options on), summary table, pre/post-rejection figure, waveform plot resp. the three "
